@@ -131,6 +131,18 @@ func (w *vfWorld) tamper(a vfAction) {
 		for k, v := range w.browsers[a.From].jar {
 			b.jar[k] = v
 		}
+	case "snap": // the browser's cookies as they are now are kept aside ...
+		b.snap = map[string]string{}
+		for k, v := range b.jar {
+			b.snap[k] = v
+		}
+	case "restore": // ... and put back later: a second tab / a retried request / a restored browser session sends the OLD cookies again
+		if b.snap != nil {
+			b.jar = map[string]string{}
+			for k, v := range b.snap {
+				b.jar[k] = v
+			}
+		}
 	case "plant":
 		// hand-written cookies whose names look like the deployment's own (its prefix + a short suffix) and whose
 		// values are readable text -- a local path, an e-mail, a token-like word -- each carrying a marker unique in
@@ -258,6 +270,12 @@ func (w *vfWorld) callback(a vfAction) {
 		} else {
 			q.Set("code", "code-never-issued")
 		}
+	case "foreign": // the still unused code the provider issued for ANOTHER browser's login
+		if o := w.browsers[a.From]; o.code != "" {
+			q.Set("code", o.code)
+		} else {
+			q.Set("code", "code-never-issued")
+		}
 	case "garbage":
 		q.Set("code", "code-never-issued")
 	case "absent":
@@ -267,6 +285,19 @@ func (w *vfWorld) callback(a vfAction) {
 	}
 	if a.ErrDesc != "" {
 		q.Set("error_description", a.ErrDesc)
+	}
+	// parameters real providers add to the authorization response (Keycloak's session_state, RFC 9207 iss, Azure's
+	// client_info, the granted scope): none of them is part of what the middleware may rely on
+	switch w.r.intn(6) {
+	case 0:
+		q.Set("session_state", fmt.Sprintf("%08x-1111-2222-3333-444455556666", w.r.next()&0xffffffff))
+	case 1:
+		q.Set("iss", w.prov.issuer)
+		q.Set("session_state", "s1")
+	case 2:
+		q.Set("iss", "https://login.other-tenant.example/")
+		q.Set("scope", "openid profile email offline_access")
+		q.Set("client_info", "eyJ1aWQiOiIxIn0")
 	}
 	tag := a.Tag
 	if tag == 0 {
@@ -290,6 +321,16 @@ func (w *vfWorld) run(actions []vfAction) {
 			w.callback(a)
 		case "tamper":
 			w.tamper(a)
+		case "follow": // the browser follows the redirect it was just given, when that stays on the application's origin
+			b := w.browsers[a.Browser]
+			loc := strings.TrimPrefix(strings.TrimPrefix(b.lastLoc, "http://app.example.test"), "https://app.example.test")
+			if strings.HasPrefix(loc, "/") && !strings.HasPrefix(loc, "//") {
+				tag := a.Tag
+				if tag == 0 {
+					tag = 4
+				}
+				w.do(vfReq{Browser: a.Browser, Slot: a.Slot, Method: "GET", Target: loc, Tag: tag})
+			}
 		case "mint":
 			w.mint(a)
 		case "newinst":
